@@ -721,4 +721,41 @@ def Hdap.fromBytes (d : Bytes) : R (Option Pdu) :=
       else if s = svcTMP then (Option.map Pdu.tmp) <$> Tmp.fromBytes d
       else throw .key
 
+/-! ## the text argument of the TMP constructor
+
+`self.text_data = text_data if isinstance(text_data, bytes) else text_data.encode("utf-16-le")`:
+octets are stored as they are (no decoding, no byte order mark handling, no validation); a `str`
+(its code points) goes through Python's strict UTF-16-LE codec, which writes no byte order mark, treats
+U+FEFF / U+FFFE like any other character and refuses surrogate code points (`UnicodeEncodeError`). -/
+
+/-- the UTF-16 code units of one code point (`none`: a surrogate code point, or not a code point) -/
+def utf16Units (c : Nat) : Option (List Nat) :=
+  if c < 0xD800 then some [c]
+  else if c < 0xE000 then none
+  else if c < 0x10000 then some [c]
+  else if c < 0x110000 then some [0xD800 + (c - 0x10000) / 0x400, 0xDC00 + (c - 0x10000) % 0x400]
+  else none
+
+/-- one code unit, low octet first -/
+def unitLe (u : Nat) : Bytes := [u % 256, u / 256]
+
+/-- `s.encode("utf-16-le")` on the code points of `s` (`none` = `UnicodeEncodeError`) -/
+def utf16le : List Nat → Option Bytes
+  | [] => some []
+  | c :: cs =>
+    match utf16Units c, utf16le cs with
+    | some us, some r => some (us.flatMap unitLe ++ r)
+    | _, _ => none
+
+/-- what `text_data` may be: a `bytes` object or a `str` -/
+inductive TextArg
+  | octets (b : Bytes)
+  | str (cps : List Nat)
+deriving DecidableEq, Repr
+
+/-- the value the constructor stores in `self.text_data` -/
+def TextArg.stored : TextArg → Option Bytes
+  | .octets b => some b
+  | .str cps => utf16le cps
+
 end Dmr.Hytera
